@@ -861,6 +861,34 @@ func closureYields(p *core.Program, f *core.Func) (*core.Func, []*ast.CallExpr) 
 			calls = append(calls, c)
 		}
 	}
+	// a closure that only forwards: `return func(yield …) { h(ctx, s, yield) }` - the iterator's body is h
+	for depth := 0; depth < 3 && len(calls) == 0 && len(it.Body.List) == 1; depth++ {
+		es, ok := it.Body.List[0].(*ast.ExprStmt)
+		if !ok {
+			break
+		}
+		fc, ok := es.X.(*ast.CallExpr)
+		if !ok {
+			break
+		}
+		passes := false
+		for _, a := range fc.Args {
+			if core.VarOf(it.Info(), a) == y {
+				passes = true
+			}
+		}
+		h := p.FuncOfObj(core.CalleeFunc(it.Info(), fc))
+		if !passes || h == nil || h.Body == nil || h.Pkg != it.Pkg || yieldParam(h) == nil {
+			break
+		}
+		it, y = h, yieldParam(h)
+		calls = nil
+		for _, c := range core.Calls(it.Body, true) {
+			if core.VarOf(it.Info(), c.Fun) == y {
+				calls = append(calls, c)
+			}
+		}
+	}
 	return it, calls
 }
 
@@ -1037,7 +1065,13 @@ func c09R7(p *core.Program, r *core.Report) {
 				// fn.Frag ranges over f(ctx): the receiver called as a function
 				if name == "fn.Frag" {
 					if v := core.VarOf(info, c.Fun); v != nil && f.Decl.Recv != nil && len(f.Decl.Recv.List[0].Names) == 1 {
-						return info.ObjectOf(f.Decl.Recv.List[0].Names[0]) == v
+						if info.ObjectOf(f.Decl.Recv.List[0].Names[0]) == v {
+							return true
+						}
+						// the body was moved into another method of the same receiver type
+						if rv := recvVar(it.Root()); rv != nil && rv == v && types.Identical(rv.Type(), info.TypeOf(f.Decl.Recv.List[0].Type)) {
+							return true
+						}
 					}
 				}
 				return false
